@@ -396,6 +396,8 @@ def run(ctx):
     ctx.floor("grease-gating", len(gcs), 1, "Grease constructions")
     # (5c) the tree a response's PATH / ROOT come from holds exactly the batch being answered: every add / send follows that responder's reset
     sm.responder_typestate(ctx, W, "tree-is-this-batch")
+    # ... and the queue the responses are numbered by holds exactly the leaves of that tree, in order
+    sm.queue_lockstep(ctx, W, "tree-is-this-batch")
     # Responder passes config.fault_percentage()
     gr = rfields.get("grease")
     okgr = is_call(gr, "Grease::new") and is_call(gr[2][0]) and gr[2][0][1].endswith("fault_percentage")
